@@ -161,7 +161,11 @@ def capillary_rise(
             if (dth > 0) and ((zBot - prof.dz[compi] / 2) < z_gw):
                 dthMax = Krel * Df * MaxCR / (1000 * prof.dz[compi])
                 if dth >= dthMax:
-                    NewCond.th[compi] = NewCond.th[compi] + dthMax
+                    # (the room dth is rounded to 4 decimals: never fill beyond
+                    # the adjusted field capacity itself)
+                    NewCond.th[compi] = min(
+                        NewCond.th[compi] + dthMax, NewCond.th_fc_Adj[compi]
+                    )
                     CRcomp = dthMax * 1000 * prof.dz[compi]
                     MaxCR = 0
                 else:
